@@ -149,6 +149,12 @@ JudgeLong(r) ==
     LET cl == <<
           <<"C02:decode_is_text_without_trailing_whitespace", r.which = "bpe" => r.dec = r.text>>,
           <<"C02:ids_are_valid_vocabulary_ids", r.which = "bpe" => \A k \in 1..Len(r.ids) : r.ids[k] < r.vs>>,
+          \* the merge loop ran to its fixed point: no two neighbouring tokens concatenate to a table entry (the table has no
+          \* whitespace, so neighbours across a word boundary never do)
+          <<"C03:canonical_merges", r.which = "bpe" =>
+              LET tb(id) == IF id < 256 THEN <<id>> ELSE IF id - 255 <= Len(r.tab) THEN r.tab[id - 255] ELSE <<>>
+                  entries == {r.tab[k] : k \in 1..Len(r.tab)}
+              IN \A k \in 1..(Len(r.ids) - 1) : (tb(r.ids[k]) \o tb(r.ids[k + 1])) \notin entries>>,
           <<"C01:byte_ids_are_prefix_bytes_suffix", r.which = "byte" => r.ids = r.text>>,
           <<"C01:byte_decode_body_is_text", r.which = "byte" => r.dec = r.text>>
         >>
